@@ -14,7 +14,7 @@ func init() {
 		NotDecided: "decode(encode(x)) = x for all x; the packfile varint header arithmetic.",
 	}
 	props["C07"] = &propSpec{
-		Rules:      []string{"C07-a", "C07-b", "C07-c", "C07-d", "C07-f", "C06-a", "C13-a", "C13-h", "C17-f", "C17-g", "C09-h", "C09-i", "C16-i", "C08-c"},
+		Rules:      []string{"C07-a", "C07-b", "C07-c", "C07-d", "C07-f", "C06-a", "C13-a", "C13-h", "C17-f", "C17-g", "C09-h", "C09-i", "C16-i", "C08-c", "C08-f"},
 		Decides:    "Decides the receiver's validation/ordering mechanisms and the sender's queue order on every path: received blocks are stored only after ValidateBlockBytes succeeded on the same buffer and under the hash of the decompressed bytes; a commit is stored only after every parent was found; rebuilt block-index sums are compared with the table's recorded sums before the table index is written; the sender appends blocks before their table and the commit after its table. Does not decide byte identity of the two stores or packfile splitting. Also decided: the sender passes the enqueue-next-commit step before leaving WriteObjects; the receiver writes the table object last and never skips its index.",
 		NotDecided: "byte identity of source and destination stores; packfile splitting arithmetic.",
 	}
@@ -74,7 +74,7 @@ func init() {
 		NotDecided: "the cell-wise resolution rules, conflict marking, commutativity, keyless tables and renamed columns (value-dependent).",
 	}
 	props["C08"] = &propSpec{
-		Rules:      []string{"C08-a", "C08-b", "C08-c", "C08-d", "C08-e", "C11-a"},
+		Rules:      []string{"C08-a", "C08-b", "C08-c", "C08-d", "C08-e", "C11-a", "C08-f"},
 		Decides:    "Decides one clause of the property only: a caller-supplied hash is stored into the Wants map only after the reachability check (the function that builds *UnrecognizedWantsError) succeeded, and that check walks from an unfiltered listing of all refs. Closedness, parent-first order, minimality, depth selection and polynomial termination are statements about DAG values and are not decided. Level 'other', explicitly thin.",
 		NotDecided: "closedness, parent-first order, minimality, depth selection, polynomial termination — all statements about DAG values.",
 	}
